@@ -23,9 +23,9 @@ def _e_fields(ln):
             "planned": 0 if f[7] == "-" else len(f[7].split(","))}
 
 
-# floors over the judged E scenarios of a full run, as (name, measure, floor per judged scenario); typical values of the
-# generator (seeds 1, 2, 3, 7, 11, 12345; 60 scenarios each) are 1.8-2.8 / 0.63-0.75 / 0.87-1.46 / 0.25-0.40 /
-# 0.25-0.40 / 0.62-0.73
+# floors over the judged E scenarios of a full run, as (name, measure, floor per judged scenario); measured per scenario
+# (120-scenario runs, seeds 1, 2, 7, 12345, 987654321987): 1.95-2.55 / 0.69-0.74 / 0.83-1.24 / 0.29-0.38 / 0.32-0.40 /
+# 0.63-0.73
 E_FLOORS = [
     ("connections accepted on the shard-aware port", lambda ln, f: _sa(ln), 1.0),
     ("scenarios with a starved shard (every port pre-bound, or none in the range)", lambda ln, f: 1 if _stat(ln, "starved") > 0 else 0, 0.30),
@@ -36,11 +36,27 @@ E_FLOORS = [
 ]
 
 
+def _vstat(v, key):
+    m = re.search(r" %s=(\d+)" % key, v or "")
+    return int(m.group(1)) if m else 0
+
+
+# floors on what the driver's RUN of the extracted connect loop (open_many) says about the judged scenarios, per scenario:
+# skp = shard-aware connections on shards with a held/busy port in their set (measured 0.85-1.25), pwr = expected number of
+# shards on which a loop that gives up at the first busy port opens fewer connections than the model (measured 0.43-0.68),
+# both from the driver's verdict line ("ok e2e cnt=exact pred=.. skp=.. pwr=<per mille>")
+V_FLOORS = [("skp", 1, 0.40), ("pwr", 1000, 0.20)]
+
+
 def _post(lines, verdicts):
     """per-kind floors: every case kind must really have been exercised.
     E (end-to-end) scenarios: those not run (mock / session did not start, pool not full or a request not back within
-    the harness cap) observe nothing: tolerated up to max(3, 5 %), a diff above; a full run must contain at least 100
-    scenarios and reach the E_FLOORS."""
+    the harness cap, a free port of the range taken from outside) observe nothing: tolerated up to max(3, 5 %), a diff
+    above; a full run must contain at least 100 scenarios and reach the E_FLOORS and V_FLOORS.
+    cnt=off (the number of shard-aware connections of some shard is not the number the extracted loop model opens in the
+    scenario's known environment) is tolerated in at most max(2, 2 %) of the judged scenarios (an unexplained environment
+    effect; 0 of 4 800 measured, also at load average 100-128), a diff above: a loop that gives up at the first busy
+    port, or goes on after a success, is off in about half of the scenarios with held ports."""
     out = []
     if len(lines) >= 100000:
         kinds = {}
@@ -59,7 +75,17 @@ def _post(lines, verdicts):
         out.append(("diff", sk[0], "diff e2e tie not exercised: %d of %d scenarios were not run (%s)"
                     % (len(sk), len(e), sk[0].split("|", 1)[1].strip())))
     judged = [ln for ln in e if "| sa=" in ln]
+    vj = [v or "" for ln, v in zip(lines, verdicts) if ln.startswith("E ") and "| sa=" in ln]
+    off = [(ln, v) for ln, v in zip(lines, verdicts) if ln.startswith("E ") and v and v.startswith("ok e2e cnt=off")]
+    if len(off) > max(2, len(judged) // 50):
+        out.append(("diff", off[0][0][:300], "diff e2e connect-loop model: in %d of %d judged scenarios the number of shard-aware "
+                    "connections differs from the extracted model's (%s)" % (len(off), len(judged), off[0][1])))
     if len(e) >= 100:
+        for key, div, floor in V_FLOORS:
+            tot = sum(_vstat(v, key) for v in vj) / div
+            if tot < floor * len(judged) or not judged:
+                out.append(("diff", e[0][:200], "diff e2e floor: driver statistic %s: %.1f in %d judged scenarios (floor %.2f per scenario)"
+                            % (key, tot, len(judged), floor)))
         for name, measure, floor in E_FLOORS:
             tot = sum(measure(ln, _e_fields(ln)) for ln in judged)
             if tot < floor * len(judged) or not judged:
@@ -68,10 +94,17 @@ def _post(lines, verdicts):
     return out
 
 
-def _e2e_cov(lines):
+def _e2e_cov(lines, verdicts):
     e = [ln for ln in lines if ln.startswith("E ")]
     judged = [ln for ln in e if "| sa=" in ln]
+    vj = [v or "" for ln, v in zip(lines, verdicts) if ln.startswith("E ") and "| sa=" in ln]
     cov = {
+        "e2e_scenarios_whose_connection_counts_equal_the_extracted_loop_model": sum(1 for v in vj if v.startswith("ok e2e cnt=exact")),
+        "e2e_scenarios_whose_connection_counts_differ_from_the_model_tolerated": sum(1 for v in vj if v.startswith("ok e2e cnt=off")),
+        "e2e_shard_aware_connections_the_model_opens": sum(_vstat(v, "pred") for v in vj),
+        "e2e_shard_aware_connections_on_shards_with_a_busy_port": sum(_vstat(v, "skp") for v in vj),
+        "e2e_expected_shards_off_for_a_loop_that_gives_up_at_the_first_busy_port": round(sum(_vstat(v, "pwr") for v in vj) / 1000, 1),
+        "e2e_scenarios_with_ports_busy_from_outside": sum(1 for ln in judged if " busy=- " not in ln),
         "e2e_scenarios": len(e),
         "e2e_scenarios_not_run": sum(1 for ln in e if _skipped(ln)),
         "e2e_connections_accepted": sum(_stat(ln, "op") for ln in judged),
@@ -98,7 +131,8 @@ SPEC = {
     # quick: 27 458 exhaustive + 300 000 random + 120 E; a run that lost its end-to-end part is below the floor
     "min_cases": {"quick": 327500, "thorough": 11000000},
     "rule": ("exhaustive part: I/D for n<=12 (thorough 40) x every shard x 4 boundary ranges; S for every n<=64 x every msb 0..63 x "
-             "fixed boundary tokens + first/last token of every shard (msb 0) / directed near-boundary tokens; directed ShardInfo "
+             "fixed boundary tokens + first/last token of every shard (msb 0) / 4 directed near-boundary tokens (msb > 0; in the quick tier only "
+             "for msb = 4 mod 8); directed ShardInfo "
              "boundary (shard = nr-1, nr, nr+1; nr = 0). Seeded random part: S=shard_of(n,msb,token) with 3/8 of the tokens within "
              "+-2 of a shard boundary of the case's own sharder (both sides), I=port iterator, D=drawn port, P=shard_of_source_port, "
              "R=ShardInfo parsing. End-to-end part: E = one seeded scenario (120 quick / 1200 thorough) of a real Session against "
@@ -106,19 +140,26 @@ SPEC = {
              "placed outside the kernel's ephemeral range by the scenario seed (a few ports per shard, ranges ending at 65535, ranges "
              "shorter than nr_shards, single ports), local ports pre-bound by the harness on the session's own client address (none / "
              "random half / whole shards / all but one port per shard / every port); the scenario waits until every shard of every "
-             "node has its pool connections, sends requests and reports every connection the mock accepted on the shard-aware port. "
+             "node has its pool connections and the mock has accepted nothing for 120 ms, sends requests and reports every connection the mock "
+             "accepted on the shard-aware port, the ports it holds and the ports it found busy from outside (probe by bind). The driver RUNS the "
+             "extracted connect loop (open_many, some_pivot_gives) in the known environment and compares the number of shard-aware "
+             "connections per shard (cnt=exact / cnt=off, off tolerated in max(2, 2%) of the scenarios). "
              "Non-trivial = every case except R cases with all three entries missing and E scenarios that were not run; "
              "distinct = distinct case lines"),
     "nontrivial": lambda ln: not ln.startswith("R N N N") and not _skipped(ln),
-    "extra_coverage": lambda lines, verdicts: _e2e_cov(lines),
+    "extra_coverage": lambda lines, verdicts: _e2e_cov(lines, verdicts),
     "trusted_base": [
         "spec_shard_of / spec_ports are the ScyllaDB definitions transcribed from the property text",
         "hook scylla::routing::verif_sharding (pass-through to *_from_range and ShardInfo::try_from)",
         "vh::mocknode (scripted CQL mock cluster): per accepted connection the listener it came in on, the client's source port and "
         "the shard the node assigned (source port mod nr_shards on the shard-aware port, as ScyllaDB does) and reported in SUPPORTED",
         "E lines: the harness' pre-bound sockets (tokio TcpSocket bound without SO_REUSEADDR on the session's client address) make "
-        "exactly those local ports address-in-use; the coverage statistics (st=) are computed by the runner, only starved is "
-        "recomputed by the driver with the extracted starvedb",
+        "at least those local ports address-in-use (also busy: TIME_WAIT ports of earlier scenarios on the same client address, ports "
+        "used by the session's own connections, foreign wildcard binds - the runner probes the range by bind at the start (busy=) and at "
+        "the end (not-run when a free unused port is no longer bindable)); the coverage statistics (st=) are computed by the runner, "
+        "starved is recomputed by the driver with the extracted starvedb, pred/skp/pwr are computed by the driver",
+        "E lines, connection counts: the refiller's first round asks for per_shard connections per shard and node minus the node's first "
+        "pool connection (plain port) - read from connection_pool.rs start_filling, hand-written in the OCaml driver, not modelled in Coq",
     ],
     "assumptions": [
         "msb_ignore <= 63 (the quantifier of C11; >= 64 overflows the Rust shift and is not generated)",
@@ -127,9 +168,12 @@ SPEC = {
         "that depends on the port only (the loop asks at most once per port, C11_connect_tried); the classification "
         "is_address_unavailable_for_use itself (AddrInUse | PermissionDenied | AddrNotAvailable) is not modelled and only AddrInUse is produced by the tie",
         "E lines judge connections the mock ACCEPTED: failed bind attempts never reach the network, so the order of the attempts and "
-        "'at most once per port' are theorems about the model only; 'returns at the first success' is observed as at most per_shard "
-        "shard-aware connections per (node, shard), 'falls back to the plain port after NoSourcePortForShard' as every starved shard "
-        "being served by plain-port connections (both reported as diff, not viol: they are not sentences of C11)",
+        "'at most once per port' are theorems about the model only; 'moves on after address-in-use' and 'returns at the first success' "
+        "are tied through the NUMBER of shard-aware connections per shard, which for every pivot is min(runs, free ports) "
+        "(C11_connect_many_count; driver: extracted open_many); 'falls back to the plain port after NoSourcePortForShard' as every starved "
+        "shard being served by plain-port connections (diff, not viol: not sentences of C11). viol only for a port outside [lo,hi] or not "
+        "congruent to the shard the MOCK assigned (= source port mod nr_shards by the mock's own computation: that conjunct cannot fail "
+        "against mocknode); a connection from a port the harness holds is a diff (harness/OS fault)",
     ],
 }
 
